@@ -1,0 +1,101 @@
+// Copyright 2022 Yahoo Inc.
+// Licensed under the terms of the Apache License 2.0. Please see LICENSE file in project root for terms.
+
+package shimagent
+
+import (
+	"fmt"
+	"io"
+
+	"golang.org/x/crypto/ssh"
+	"golang.org/x/crypto/ssh/agent"
+)
+
+// upstreamAgent wraps the client of the underlying ssh-agent. The client panics
+// when the underlying agent answers a request with a well-formed message of an
+// unexpected type; a misbehaving underlying agent must surface as an error, it
+// must not crash the process that hosts the shim agent.
+type upstreamAgent struct {
+	agent agent.ExtendedAgent
+}
+
+func recoverUpstream(err *error) {
+	if r := recover(); r != nil {
+		*err = fmt.Errorf("agent: unexpected reply from the underlying agent: %v", r)
+	}
+}
+
+func (u upstreamAgent) List() (keys []*agent.Key, err error) {
+	defer recoverUpstream(&err)
+	return u.agent.List()
+}
+
+func (u upstreamAgent) Sign(key ssh.PublicKey, data []byte) (sig *ssh.Signature, err error) {
+	defer recoverUpstream(&err)
+	return u.agent.Sign(key, data)
+}
+
+func (u upstreamAgent) SignWithFlags(key ssh.PublicKey, data []byte, flags agent.SignatureFlags) (sig *ssh.Signature, err error) {
+	defer recoverUpstream(&err)
+	return u.agent.SignWithFlags(key, data, flags)
+}
+
+func (u upstreamAgent) Add(key agent.AddedKey) (err error) {
+	defer recoverUpstream(&err)
+	return u.agent.Add(key)
+}
+
+func (u upstreamAgent) Remove(key ssh.PublicKey) (err error) {
+	defer recoverUpstream(&err)
+	return u.agent.Remove(key)
+}
+
+func (u upstreamAgent) RemoveAll() (err error) {
+	defer recoverUpstream(&err)
+	return u.agent.RemoveAll()
+}
+
+func (u upstreamAgent) Lock(passphrase []byte) (err error) {
+	defer recoverUpstream(&err)
+	return u.agent.Lock(passphrase)
+}
+
+func (u upstreamAgent) Unlock(passphrase []byte) (err error) {
+	defer recoverUpstream(&err)
+	return u.agent.Unlock(passphrase)
+}
+
+func (u upstreamAgent) Signers() (signers []ssh.Signer, err error) {
+	defer recoverUpstream(&err)
+	signers, err = u.agent.Signers()
+	for i, s := range signers {
+		signers[i] = upstreamSigner{s}
+	}
+	return signers, err
+}
+
+func (u upstreamAgent) Extension(extensionType string, contents []byte) (resp []byte, err error) {
+	defer recoverUpstream(&err)
+	return u.agent.Extension(extensionType, contents)
+}
+
+// upstreamSigner wraps a signer of the underlying agent's client, which talks
+// to the underlying agent on every signature.
+type upstreamSigner struct {
+	signer ssh.Signer
+}
+
+func (s upstreamSigner) PublicKey() ssh.PublicKey { return s.signer.PublicKey() }
+
+func (s upstreamSigner) Sign(rand io.Reader, data []byte) (sig *ssh.Signature, err error) {
+	defer recoverUpstream(&err)
+	return s.signer.Sign(rand, data)
+}
+
+func (s upstreamSigner) SignWithAlgorithm(rand io.Reader, data []byte, algorithm string) (sig *ssh.Signature, err error) {
+	defer recoverUpstream(&err)
+	if as, ok := s.signer.(ssh.AlgorithmSigner); ok {
+		return as.SignWithAlgorithm(rand, data, algorithm)
+	}
+	return s.signer.Sign(rand, data)
+}
